@@ -197,8 +197,16 @@ def c06 (s : SyncCase) : Option String :=
             else if isDeleting o then check ws.isEmpty s!"{getName o} is pending deletion, yet was written"
             else match method with
               | "OnDelete" => check ws.isEmpty s!"{getName o} (OnDelete) was written"
-              | "Recreate" | "RollingRecreate" => check (ws.all (fun r => r.verb == "delete")) s!"{getName o} ({method}) received {(ws.map (·.verb))}: only delete is allowed"
-              | "InPlace" | "RollingInPlace" => check (ws.all (fun r => r.verb == "update")) s!"{getName o} ({method}) received {(ws.map (·.verb))}: only update is allowed"
+              | "Recreate" | "RollingRecreate" =>
+                  orElse (check (ws.all (fun r => r.verb == "delete")) s!"{getName o} ({method}) received {(ws.map (·.verb))}: only delete is allowed") fun _ =>
+                  -- ... and it is deleted: in a sync that ended without an error and in which no request failed, the delete was sent
+                  -- (a parent pending deletion may be under the dying-parent guard of C10: no child is written then)
+                  check (s.outcome != "ok" || isDeleting (s.hookParent h) || s.calls.any (fun r => !r.isHook && !r.ok) || !ws.isEmpty)
+                    s!"{getName o} differs from its desired state under {method}, the sync ended without an error, yet no delete was sent for it"
+              | "InPlace" | "RollingInPlace" =>
+                  orElse (check (ws.all (fun r => r.verb == "update")) s!"{getName o} ({method}) received {(ws.map (·.verb))}: only update is allowed") fun _ =>
+                  check (s.outcome != "ok" || isDeleting (s.hookParent h) || s.calls.any (fun r => !r.isHook && !r.ok) || !ws.isEmpty)
+                    s!"{getName o} differs from its desired state under {method}, the sync ended without an error, yet no update was sent for it"
               | _ => check ws.isEmpty s!"{getName o} (unknown method {method}) was written")
 
 def oracleC06 (s : SyncCase) : Option String := c06 s
